@@ -351,6 +351,7 @@ def find_loops(body):
 class World:
     def __init__(self, tmpl_path, repo, canary_mode=False, flags=(), external=()):
         self.external = set(external)   # fn ids whose body is outside the dialect on this tree: emitted as external_body
+        self.auto_external = {}         # fn id -> reason, for functions made external by the generator itself
         self.canary_mode = canary_mode
         self.flags = set(flags) | ({"canary"} if canary_mode else set())
         self.tmpl_path = tmpl_path
@@ -562,15 +563,20 @@ class World:
                 body = body.replace(a, b)
                 log.append(f"D13 {a}=>{b} x{k}")
         # loop invariants
+        # (a body whose loops no longer match the invariants of the contract is outside the dialect for THIS function only:
+        # it is emitted as external_body — undecided for its own tags — instead of sinking the whole world)
         if loops:
             offs = find_loops(body)
             for k in sorted(loops, reverse=True):
                 if k >= len(offs):
-                    raise ExtractError(f"{fid}: loop #{k} not found in body (anchor lost)")
+                    self.external.add(fid)
+                    self.auto_external[fid] = f"loop #{k} of the contract not found in the body (anchor lost)"
+                    break
                 inv = "\n".join(t for (_, t) in loops[k])
                 body = body[:offs[k]] + "\n" + inv + "\n" + indent + "    " + body[offs[k]:]
         elif find_loops(body) and d.get("loops") != "none":
-            raise ExtractError(f"{fid}: body has a loop but the contract has no invariant for it (outside the dialect)")
+            self.external.add(fid)
+            self.auto_external[fid] = "body has a loop but the contract has no invariant for it"
         if d.get("canary") != "none" and d.get("shadow") != "1":
             c = make_canary(len(self.canaries), fid, head, contract, self.cur_impl[1] if self.cur_impl else None)
             if c:
@@ -712,7 +718,7 @@ def build(tmpl_path, repo, out_path, canary_mode=False, flags=(), external=()):
     os.makedirs(os.path.dirname(out_path), exist_ok=True)
     with open(out_path, "w") as f:
         f.write(text)
-    meta = dict(template=tmpl_path, out=out_path, functions=w.functions, linemap=w.linemap,
+    meta = dict(template=tmpl_path, out=out_path, functions=w.functions, linemap=w.linemap, auto_external=w.auto_external,
                 canaries=[dict(name=n, fn=f) for (n, f, _) in w.canaries], lemmas=w.lemmas)
     with open(out_path + ".map.json", "w") as f:
         json.dump(meta, f)
